@@ -8,7 +8,7 @@ TRUSTED = [
     'hand-written model coq/Model/UserDB.v of localmanager.go / api_router.go / userpanel.go GetUser / activeuser.go GetSession / qos.go MakeValve',
     'bbolt is modelled as a map of maps with atomic transactions; durability (close + reopen returns the same map) is TRUSTED in the model (reopen = identity) and exercised on the real file by the correspondence check',
     'encoding/json, encoding/base64, gorilla/mux, net/http are black boxes: requests reach the model classified (path decodes/does not, body decodes to UserInfo/does not); the classification is made by the case generator by construction',
-    'juju/ratelimit: NewBucketWithRate panics iff capacity <= 0 (read from the library source, sampled: rates 1..2^63-1 never panic); the quantum search for positive rates is not modelled here (C19)',
+    'juju/ratelimit: NewBucketWithRate panics iff capacity <= 0 (read from the library source; sampled by the V ops and by every connect: positive rates up to 2^63-1 never panic); the quantum search for positive rates is not modelled here (C19)',
     'correspondence: in-package Go drivers harness/usermanager/c18_test.go and harness/server/c18_test.go (httptest on the real router, real bolt temp files, real userPanel) vs extracted OCaml model (ExtrOcamlBasic only), ocaml/c18_driver.ml',
 ]
 ASSUMPTIONS = [
@@ -21,7 +21,7 @@ ASSUMPTIONS = [
 FIELDS = ['SessionsCap', 'UpRate', 'DownRate', 'UpCredit', 'DownCredit', 'ExpiryTime']
 I64MAX, I64MIN = 2**63 - 1, -2**63
 I32MAX, I32MIN = 2**31 - 1, -2**31
-KNOWN_F8 = 'makevalve-panic-nonpositive-rate'
+SIG_F8 = 'makevalve-panic-nonpositive-rate'   # F8, repaired in /repo by 638655d: a fresh VIOLATION if it comes back
 
 
 def hx(b):
@@ -282,7 +282,7 @@ def oracle(meta, obs_tokens):
             if kind == 'C':
                 rec = ref.get(intent[1])
                 if 'token_bucket' in tok and rec is not None and (rec['UpRate'] <= 0 or rec['DownRate'] <= 0):
-                    return (KNOWN_F8, 'owner of record {%s} connects: %s' % (show_rec(rec), tok), i)
+                    return (SIG_F8, 'owner of record {SessionsCap,UpRate,DownRate,UpCredit,DownCredit,ExpiryTime = %s} connects at time %d: %s (a rate that is not positive reached MakeValve)' % (show_rec(rec), now, tok), i)
                 return ('panic:connect:' + tok, 'panic when the owner connects / has usage uploaded: %s' % tok, i)
             return ('panic:%s:%s' % (kind, tok), 'panic in operation %s: %s' % (kind, tok), i)
         if tok in ('BADREQ', 'BADOP') or tok.endswith('badjson') or '?' in tok:
@@ -365,14 +365,14 @@ def _tmpdir():
     return '/dev/shm' if os.path.isdir('/dev/shm') and os.access('/dev/shm', os.W_OK) else '/tmp'
 
 
-def run_model(ctx, inp, tag, guard=False):
-    out = '%s/%s.model%s.out' % (ctx.work, tag, '_guard' if guard else '')
+def run_model(ctx, inp, tag, prefix=False):
+    out = '%s/%s.model%s.out' % (ctx.work, tag, '_prefix' if prefix else '')
     binp = '%s/ocaml/bin/c18' % vlib.V
     if not os.path.exists(binp):
         return 127, 'model binary missing', {}
     import subprocess
     with open(inp) as fi, open(out, 'w') as fo:
-        p = subprocess.run([binp] + (['guard'] if guard else []), stdin=fi, stdout=fo, stderr=subprocess.PIPE, text=True, timeout=1800)
+        p = subprocess.run([binp] + (['prefix'] if prefix else []), stdin=fi, stdout=fo, stderr=subprocess.PIPE, text=True, timeout=1800)
     return p.returncode, p.stderr, vlib.read_lines_by_id(out)
 
 
@@ -438,7 +438,7 @@ def correspondence(ctx, verdict, pr):
     total_ops = 0
     mism_all = []
     orc_fail = 0
-    guard_detected = False
+    prefix_detected = False
     distinct = set()
     impl_count = 0
     times = {}
@@ -472,7 +472,7 @@ def correspondence(ctx, verdict, pr):
                     if intent[1] == 'valid':
                         stats['subsets'].add(sum(1 << i for i, f in enumerate(FIELDS) if f in intent[3]))
                 if intent[0] == 'C':
-                    key = norm(tok).rsplit(':', 1)[0] if tok.startswith('c:') else norm(tok)
+                    key = norm(tok) if not tok.startswith('c:ok') else 'c:ok'
                     stats['connect'][key] = stats['connect'].get(key, 0) + 1
                 if tok.startswith('s'):
                     stats['statuses'][tok] = stats['statuses'].get(tok, 0) + 1
@@ -481,32 +481,29 @@ def correspondence(ctx, verdict, pr):
             r = oracle(meta, toks)
             if r:
                 sig, msg, idx = r
-                if sig == KNOWN_F8:
-                    verdict.oracle_failure(sig, msg, dict(case=line, meta=meta, implementation=io, model=mo))
-                else:
-                    orc_fail += 1
-                    if orc_fail <= 2:
-                        sline, smeta = shrink(ctx, pkg, line, meta, sig)
-                        rc2, _, impl2, _, _ = run_impl(ctx, pkg, [sline], 'shrunk')
-                        sio = impl2.get(sline.split()[0], io)
-                        r2 = oracle(smeta, sio.split()) or r
-                        verdict.oracle_failure(r2[0], 'C18 oracle: ' + r2[1],
-                                               dict(case=sline, meta=smeta, implementation=sio, history=readable(sline, smeta),
-                                                    failing_op_index=r2[2], original_case=line,
-                                                    how='python3 tools/check.py C18 --replay <this file>'))
+                orc_fail += 1
+                if orc_fail <= 2:
+                    sline, smeta = shrink(ctx, pkg, line, meta, sig)
+                    rc2, _, impl2, _, _ = run_impl(ctx, pkg, [sline], 'shrunk')
+                    sio = impl2.get(sline.split()[0], io)
+                    r2 = oracle(smeta, sio.split()) or r
+                    verdict.oracle_failure(r2[0], 'C18 oracle: ' + r2[1],
+                                           dict(case=sline, meta=smeta, implementation=sio, history=readable(sline, smeta),
+                                                failing_op_index=r2[2], original_case=line,
+                                                how='python3 tools/check.py C18 --replay <this file>'))
             if mo is not None and [norm(t) for t in toks] != mo.split():
                 mism.append((cid, line, io, mo))
+        prefix_note = ''
         if mism and rc == 0 and mrc == 0 and pkg == 'server':
-            # the same cases with the proposed F8 guard: if that variant agrees everywhere, /repo has the patch
-            grc, gerr, gmodel = run_model(ctx, inp, 'cases_' + pkg, guard=True)
+            # the same cases on the model variant before commit 638655d (no rate guard in GetUser)
+            grc, gerr, gmodel = run_model(ctx, inp, 'cases_' + pkg, prefix=True)
             if grc == 0 and all([norm(t) for t in impl[c[0]].split()] == gmodel.get(c[0], '').split() for c in cs if c[0] in impl):
-                guard_detected = True
-                mism = []
-                ctx.notes.append('server harness agrees with the GUARDED model variant everywhere: repo_patches/F8_nonpositive_rate.diff (or an equivalent) is applied')
+                prefix_detected = True
+                prefix_note = ' (every case matches the model variant WITHOUT the rate guard of commit 638655d: finding F8 is back)'
         if mism and rc == 0 and mrc == 0:
             cid, line, io, mo = min(mism, key=lambda m: len(m[1]))
             k = next((i for i, (a, b) in enumerate(zip([norm(t) for t in io.split()], mo.split())) if a != b), None)
-            res['broken'].append(('model UserDB.v vs %s: %d of %d cases differ' % (pkg, len(mism), len(cs)),
+            res['broken'].append(('model UserDB.v vs %s: %d of %d cases differ%s' % (pkg, len(mism), len(cs), prefix_note),
                                   'smallest differing case: %s\nfirst differing op index: %s\nimplementation: %s\nmodel:          %s' % (line, k, io, mo)))
         mism_all += mism
     hl = stats['hist_len'] or [0]
@@ -519,7 +516,7 @@ def correspondence(ctx, verdict, pr):
                                 post_by_intent=stats['post_intents'], field_subsets_created='%d of 64' % len(stats['subsets']),
                                 status_codes=stats['statuses'], connect_outcomes=stats['connect'], panics_seen=stats['panics'],
                                 history_len=dict(min=min(hl), max=max(hl), mean=round(sum(hl) / len(hl), 1)), go_seconds=times),
-        corpus_cases=ncorpus, exhaustive=False, f8_guard_detected=guard_detected)
+        corpus_cases=ncorpus, exhaustive=False, matches_prefix_F8_variant=prefix_detected)
     ctx.notes.append('observation (not part of the property): DELETE of an absent user answers 500 where api.yaml documents 404; '
                      'the [b64UID == ""] branches of the handlers are unreachable (no route matches an empty segment: 405), '
                      'an empty UID is reachable only through the segment %0A and is refused by bolt (500, nothing written)')
@@ -547,6 +544,6 @@ def replay(ctx, verdict):
 
 MANIFEST = dict(
     technique='Coq proofs over all operation sequences (simulation: abstraction function + per-step commutation + induction) of a hand-written model of the bolt-backed user manager and its HTTP router; model tied to the code by differential execution of seeded histories (real router via httptest on real bolt files with close/reopen, real userPanel for connect/upload) against the extracted model; independent Python reference map as oracle',
-    level_text='C18_codec, C18_refines_map (every history of create/update with any field subset and any int32/int64 values, read, list, delete, rejected requests, reopen, usage upload, from any well-formed store: responses and final store equal those of a finite map uid -> six integers), C18_spec_is_map, C18_persist, C18_no_panic (every store, decoders as they are now) are proved in Coq without axioms. C18_full (no panic when the owner connects) is REFUTED for the code as it is (C18_makevalve_refuted: rate <= 0 reaches ratelimit with capacity <= 0: known finding F8) and C18_partial characterises exactly when that happens; C18_patched_no_panic covers the proposed guard. C18_refuted_prefix_nil keeps the pre-fix decoder (F7) as a refuted variant.',
+    level_text='C18_codec, C18_refines_map (every history of create/update with any field subset and any int32/int64 values, read, list, delete, rejected requests, reopen, usage upload, from any well-formed store: responses and final store equal those of a finite map uid -> six integers), C18_spec_is_map, C18_persist, C18_no_panic (every store: no reader, no history, no connect of any owner and no usage upload panics - the code as it is now) and C18_no_panic_on_connect are proved in Coq without axioms; C18_badrate_exact says exactly which records the rate guard refuses. The two repaired defects are kept as refuted variants of the model: C18_refuted_prefix_nil (F7, decoder before cd5140b) and C18_refuted_prefix_makevalve (F8, GetUser before 638655d) with the exact panic condition C18_prefix_makevalve_exact.',
     level_note='Trusted: Coq kernel; extraction; bbolt durability and transaction atomicity (exercised, not modelled); encoding/json, base64, gorilla/mux classification of requests (by construction in the generator, sampled); ratelimit panics iff capacity <= 0 (read from source, sampled).',
     design_ref='DESIGN.md section 6, C18; section 7 F6 F7 F8 O5')
